@@ -677,7 +677,7 @@ func main() {
 				n = v // development aid
 			}
 			quotaSingle, quotaPair := r.N(12, 600), r.N(1, 40)
-			sampleEvery := r.N(100, 50) // share of the mutants Decode rejects that go through a session anyway
+			sampleEvery := r.N(60, 40) // share of the mutants Decode rejects that go through a session anyway
 			// generation, classification and the Decode pre-screen are pure functions: done here, in parallel
 			type slot struct {
 				c  ccase
@@ -751,7 +751,7 @@ func main() {
 		}
 		batch.Drive(r, batch.Config{Name: "c19", PerChild: 120, Workers: 1, Lanes: 8, FatalNotViolation: true}, cases, nil)
 		if _, ok := r.Replaying(); !ok {
-			r.Require("sessions", 500)
+			r.Require("sessions", 300)
 			for _, cl := range []string{"length-sum", "nlri-tiling", "attr-length", "prefix-len", "missing-mandatory"} {
 				r.Require("class_"+cl, 200)
 				r.Require("session_class_"+cl, 10) // accepted by Decode or not: every class is driven through real sessions
